@@ -41,4 +41,37 @@ theorem kind_rank_tie :
     MJ.Gen.valueKindOrder.idxOf "Map" = kindRank (.map []) ∧
     MJ.Gen.valueKindOrder.idxOf "Plain" = kindRank (.macro "" [] [] [] false []) := by decide
 
+/-- `BuildMacro`'s flag for "the macro looks up `caller`" is the engine's `MACRO_CALLER` -/
+theorem macro_caller_tie : MJ.Compile.macroCallerFlag = MJ.Gen.c03MacroCaller := by decide
+
+/-- an output capture either captures or discards (`renderAfter` / `runD` model `Discard`) -/
+theorem capture_modes_tie : MJ.Gen.c03CaptureModes = ["Capture", "Discard"] := by decide
+
+/-- every instruction of the model is an instruction of the engine (by name: the instruction
+streams are compared by these names) -/
+theorem instructions_tie (i : MJ.Compile.Instr) : MJ.Gen.c03Instructions.contains i.opName = true := by
+  cases i <;> simp only [MJ.Compile.Instr.opName] <;> decide
+
+/-- the filters and tests the reference semantics knows are built-ins of the engine -/
+def modelFilters : List String := ["length", "upper", "lower", "default", "join", "first", "last", "list"]
+def modelTests : List String := ["defined", "undefined", "none", "odd", "even"]
+
+theorem filters_tie : (modelFilters.all fun f => MJ.Gen.builtinFilterNames.contains f) = true := by decide
+theorem tests_tie : (modelTests.all fun t => MJ.Gen.c03BuiltinTestNames.contains t) = true := by decide
+
+/-- … and it knows no others -/
+theorem unknown_filter (name : String) (v : Val) (args : List Val) (h : name ∉ modelFilters) :
+    applyFilter name v args = .error .unknownFilter := by
+  unfold applyFilter
+  simp only [modelFilters, List.mem_cons, List.mem_nil_iff, or_false, not_or] at h
+  obtain ⟨h1, h2, h3, h4, h5, h6, h7, h8⟩ := h
+  split <;> simp_all
+
+theorem unknown_test (name : String) (v : Val) (args : List Val) (h : name ∉ modelTests) :
+    applyTest name v args = .error .unknownTest := by
+  unfold applyTest
+  simp only [modelTests, List.mem_cons, List.mem_nil_iff, or_false, not_or] at h
+  obtain ⟨h1, h2, h3, h4, h5⟩ := h
+  split <;> simp_all
+
 end MJ.C03
